@@ -129,7 +129,8 @@ C09CustodyMovesV1(nd) == ~IsRoot(nd) /\ V1AuctionIds(Pre(nd)) \subseteq V1Auctio
    \A d \in CollDenoms : V1CustodyMoves(Cfg(nd), Pre(nd), Post(nd), d)
 
 (* bounded-response ghost: consecutive blocks during which vault vid stayed open, unsafe and enabled *)
-StillBad(C, S, vid) == HasVault(S, vid) /\ Unsafe(C, S, VaultById(S, vid)) /\ Enabled(C, S, VaultById(S, vid))
+StillBad(C, S, vid) == HasVault(S, vid) /\ Unsafe(C, S, VaultById(S, vid)) /\ EnabledV2(C, S, VaultById(S, vid))
+StillBadV1(C, S, vid) == HasVault(S, vid) /\ Unsafe(C, S, VaultById(S, vid)) /\ Enabled(C, S, VaultById(S, vid))
 RECURSIVE BadBlocks(_, _)
 BadBlocks(i, vid) ==
   LET nd == Nd(i) IN
@@ -148,11 +149,16 @@ C09Live(i) == LET nd == Nd(i) IN
 RECURSIVE BadSweepsV1(_, _)
 BadSweepsV1(i, vid) ==
   LET nd == Nd(i) IN
-  IF IsRoot(nd) \/ ~StillBad(Cfg(nd), Post(nd), vid) \/ ~StillBad(Cfg(nd), Pre(nd), vid) THEN 0
+  IF IsRoot(nd) \/ ~StillBadV1(Cfg(nd), Post(nd), vid) \/ ~StillBadV1(Cfg(nd), Pre(nd), vid) THEN 0
   ELSE (IF nd.a = "V1Sweep" /\ Ok(nd) THEN 1 ELSE 0) + BadSweepsV1(nd.parent, vid)
+RECURSIVE MaxLenV1(_, _)
+MaxLenV1(i, vid) ==
+  LET nd == Nd(i) IN
+  IF IsRoot(nd) \/ ~StillBadV1(Cfg(nd), Pre(nd), vid) THEN Len(Post(nd).vaults)
+  ELSE Max2(Len(Post(nd).vaults), MaxLenV1(nd.parent, vid))
 C09LiveV1(i) == LET nd == Nd(i) IN
   nd.a = "V1Sweep" => \A v \in Range(Post(nd).vaults) :
-     BadSweepsV1(i, v.id) <= 2 * CeilDiv(MaxLen(i, v.id), Cfg(nd).v1.batch)
+     BadSweepsV1(i, v.id) <= 2 * CeilDiv(MaxLenV1(i, v.id), Cfg(nd).v1.batch)
 
 (* ------------------------------------ C10 ------------------------------------ *)
 BidOk(nd) == nd.a = "Bid" /\ Ok(nd) /\ nd.args.v \in AuctionIds(Pre(nd))
@@ -237,7 +243,7 @@ C10ExternalProceeds(nd) == Closing(nd) /\ BidAuction(nd).dutch /\ BidLocked(nd).
 IdSeq(S) == [k \in 1..Len(S.vaults) |-> S.vaults[k].id]
 ConfBlock(nd) == nd.a = "Block" /\ Ok(nd) =>
    LET C == Cfg(nd) S == Pre(nd)
-       UU == {v.id : v \in {x \in Range(S.vaults) : Unsafe(C, S, x) /\ Enabled(C, S, x)}}
+       UU == {v.id : v \in {x \in Range(S.vaults) : Unsafe(C, S, x) /\ EnabledV2(C, S, x)}}
        r == SweepStep(IdSeq(S), S.offset, C.batch, UU)
    IN IF S.ctl.esm THEN Seized(nd) = {}       \* under emergency shutdown other hooks of the block re-shape the vault list (redemption, close-outs); the sweep seizes nothing
       ELSE /\ IdSeq(Post(nd)) = r.list
@@ -352,7 +358,7 @@ Stats == PrintT(<<"STATS", [nodes |-> NLog,
    esmVaultRedemptions |-> Cnt(LAMBDA nd : nd.st.ev.esmVaultRed /\ Len(Pre(nd).vaults) > 0),
    esmStableRedemptions |-> Cnt(LAMBDA nd : nd.st.ev.esmStableRed /\ Len(Pre(nd).svaults) > 0),
    esmCollectorBurns |-> Cnt(LAMBDA nd : nd.st.ev.esmCollTx /\ DSupply(nd) < 0),
-   esmV2CloseOuts |-> Cnt(LAMBDA nd : nd.st.ev.v2EsmDue > 0),
+   esmV2CloseOuts |-> Cnt(LAMBDA nd : nd.st.ev.v2Esm),
    esmV1CloseOuts |-> Cnt(LAMBDA nd : nd.st.ev.v1EsmDue > 0 /\ Len(Post(nd).auctionsV1) < Len(Pre(nd).auctionsV1)),
    esmRedemptions |-> Cnt(LAMBDA nd : nd.a = "EsmRedeem" /\ Ok(nd)),
    esmCoolOffWithdrawals |-> Cnt(LAMBDA nd : nd.a = "Withdraw" /\ Ok(nd) /\ Pre(nd).ctl.esm),
